@@ -72,12 +72,18 @@ impl BlobReader {
         let meta = self
             .read_bytes(header.meta_size() as usize)
             .with_context(|| "read record meta")?;
-        let meta = bincode::deserialize(&meta)?;
+        let meta: Meta = bincode::deserialize(&meta)?;
 
         let data = self
             .read_bytes(header.data_size() as usize)
             .with_context(|| "read record data")?
             .into();
+
+        // No checksum covers the meta: if damaged meta bytes still decode, but not to the recorded size,
+        // the record would be written back with a meta that contradicts its header
+        if bincode::serialized_size(&meta)? != header.meta_size() {
+            return Err(ToolsError::record_validation_error("meta size mismatch").into());
+        }
 
         let record = Record { header, meta, data };
         let record = record
